@@ -32,6 +32,11 @@ func runC04(c *Ctx) {
 	checkEntityIdFirstOp(c)
 	checkComparator(c, "R1.1") // "same order" on every read: the pack order must be a total function of stored data
 	checkOpsConcatenation(c)
+	checkFirstVersionFrozen(c)
+	// "logical times … read through the cache and a second replica after push/pull": what is read is
+	// witnessed (so the next commit sorts after it) and what is pulled is what the cache serves
+	checkWitnessAll(c, "R5.3")
+	checkCacheMergeFold(c, "R2.6")
 }
 
 // R4.1
@@ -1010,4 +1015,127 @@ func foldInt(v ssa.Value) (int64, bool) {
 		}
 	}
 	return 0, false
+}
+
+// R4.9: a version of an identity is modified in place only while it is neither stored nor
+// identified: the identity's id is the id of its first version, predicted from the bytes that
+// will be written, so a first version whose id was already computed (and possibly handed to
+// operations as their author) must not change any more.
+func checkFirstVersionFrozen(c *Ctx) {
+	w := c.W
+	c.Doc("R4.9", "in every method of Identity that modifies a version in place (version.SetMetadata), every path to the modification either appended a fresh Clone first, or took the false edge of 'last version is committed (commitHash != \"\")' and the false edge of one of 'it is the only version', 'its id is not unset', 'its id is not empty': a version that is stored, or whose id was already computed, is never changed")
+	unset, okU := pkgConstString(w, "entity", "UnsetId")
+	if !okU {
+		unset = "unset"
+	}
+	n := 0
+	for _, fn := range w.ModFns {
+		if isInstance(fn) || fnPkgPath(fn) != modPath+"/entities/identity" || w.isTestHelper(fn) || len(fn.Blocks) == 0 {
+			continue
+		}
+		if fn.Signature.Recv() == nil || typeShortName(fn.Signature.Recv().Type()) != "entities/identity.Identity" {
+			continue
+		}
+		for _, cl := range CallsNamed(fn, "entities/identity.version.SetMetadata") {
+			n++
+			c.Sites++
+			c.seeFn(funcName(fn))
+			target := cl.Block()
+			cloneBlock := map[*ssa.BasicBlock]bool{}
+			for _, cc := range CallsNamed(fn, "entities/identity.version.Clone") {
+				cloneBlock[cc.Block()] = true
+			}
+			// classify a branch edge
+			classify := func(b *ssa.BasicBlock, succ int) string {
+				iff, isIf := b.Instrs[len(b.Instrs)-1].(*ssa.If)
+				if !isIf {
+					return ""
+				}
+				bo, isBo := iff.Cond.(*ssa.BinOp)
+				if !isBo {
+					return ""
+				}
+				op := bo.Op
+				if succ == 1 {
+					op = negateOp(op)
+				}
+				if lc, isCall := bo.X.(*ssa.Call); isCall {
+					if bi, isB := lc.Common().Value.(*ssa.Builtin); isB && bi.Name() == "len" {
+						if k, isK := constInt(bo.Y); isK && k == 1 && op == token.NEQ {
+							return "not-only-version"
+						}
+					}
+					return ""
+				}
+				_, fld, isFld := loadOfField(bo.X)
+				if !isFld {
+					return ""
+				}
+				s, isS := constString(bo.Y)
+				if !isS {
+					return ""
+				}
+				switch {
+				case fld == "commitHash" && s == "" && op == token.EQL:
+					return "not-committed"
+				case fld == "id" && (s == unset || s == "") && op == token.EQL:
+					return "id-not-computed"
+				}
+				return ""
+			}
+			bad := ""
+			var dfs func(b *ssa.BasicBlock, facts map[string]bool, onPath map[*ssa.BasicBlock]bool)
+			dfs = func(b *ssa.BasicBlock, facts map[string]bool, onPath map[*ssa.BasicBlock]bool) {
+				if bad != "" || onPath[b] || cloneBlock[b] {
+					return
+				}
+				if b == target {
+					if !(facts["not-committed"] && (facts["not-only-version"] || facts["id-not-computed"])) {
+						var missing []string
+						if !facts["not-committed"] {
+							missing = append(missing, "the last version may already be stored")
+						}
+						if !(facts["not-only-version"] || facts["id-not-computed"]) {
+							missing = append(missing, "it may be the first version with its id already computed")
+						}
+						bad = strings.Join(missing, "; ")
+					}
+					return
+				}
+				onPath[b] = true
+				for i, s := range b.Succs {
+					f2 := facts
+					if k := classify(b, i); k != "" {
+						f2 = map[string]bool{k: true}
+						for kk := range facts {
+							f2[kk] = true
+						}
+					}
+					dfs(s, f2, onPath)
+				}
+				delete(onPath, b)
+			}
+			dfs(fn.Blocks[0], map[string]bool{}, map[*ssa.BasicBlock]bool{})
+			c.Check(bad == "", "R4.9", funcName(fn)+":version-modified-only-while-unidentified", w.InstrPos(cl.Instr), "in-place modification only of a version that is neither stored nor identified", "a version is modified in place on a path where "+bad+": the identity's id (hash of its first version) changes after it was handed out, operations already signed with it can no longer resolve their author")
+		}
+	}
+	if n == 0 {
+		c.Violate("R4.9", "expected:in-place-version-modification", "entities/identity", "no in-place modification of a version found (reference: Identity.SetMetadata)")
+	}
+	// version.Id() caches the predicted id, so the value handed out is the value compared later
+	if vid := w.Method("entities/identity", "version", "Id"); vid != nil {
+		cached := false
+		for _, cl := range CallsNamed(vid, "entity.DeriveId") {
+			if cv, isCall := cl.Instr.(*ssa.Call); isCall {
+				for _, r := range *cv.Referrers() {
+					if st, isSt := r.(*ssa.Store); isSt {
+						if fa, isFA := st.Addr.(*ssa.FieldAddr); isFA && fieldName(fa) == "id" {
+							cached = true
+						}
+					}
+				}
+			}
+		}
+		c.Check(cached, "R4.9", "version.Id:predicted-id-recorded", w.FnPos(vid), "the predicted id is recorded in the version", "version.Id() does not record the id it predicts: SetMetadata cannot know the id was handed out")
+	}
 }
